@@ -98,7 +98,8 @@ def _by_line(msgs: list[str], fname: str) -> dict[int, list[list[str]]]:
 def _failure(b: dict[str, Any]) -> dict[str, Any] | None:
     if b.get("internal"):
         i = b["internal"][0]
-        return {"kind": "internal", "exc": i["exc"], "func": i["func"], "file": i["file"], "msg": i["msg"], "tb": i.get("tb")}
+        return {"kind": "internal", "exc": i["exc"], "func": i["func"], "file": i["file"], "msg": i["msg"], "tb": i.get("tb"),
+                "src_line": i.get("src_line")}
     if b.get("crash"):
         c = b["crash"]
         return {"kind": "crash", "exc": c["exc"], "func": c.get("key"), "file": None, "msg": c.get("msg"), "tb": c.get("tb")}
@@ -435,8 +436,9 @@ def mro_batch(hiers: list[list[list[int]]], flags: list[str]) -> dict[str, Any]:
 
 
 def mro_direct(hiers: list[list[list[int]]]) -> dict[str, Any]:
-    """The same comparison against mypy.mro.linearize_hierarchy called directly on hand-made TypeInfos (contract on the
-    real function; much cheaper, used for the 6-class samples)."""
+    """The same comparison with mypy.mro.calculate_mro called directly on hand-made TypeInfos (contract on the real
+    function; ~100x cheaper than a build, used for the 6-class space). Only the LAST class of every hierarchy is judged
+    (its prefixes are other, smaller hierarchies); the comparison is done here and only counts + disagreements travel."""
     from mypy.mro import MroError, calculate_mro
     from mypy.nodes import Block, ClassDef, SymbolTable, TypeInfo
     from mypy.types import Instance
@@ -453,34 +455,63 @@ def mro_direct(hiers: list[list[list[int]]]) -> dict[str, Any]:
     obj.defn.fullname = "builtins.object"
     obj._fullname = "builtins.object"
     calculate_mro(obj)
-    out = []
-    for h, hier in enumerate(hiers):
+    cells: dict[str, int] = {}
+    bad = []
+    n = acc = rej = nontriv = 0
+    sample = None
+    for hier in hiers:
         infos: list[Any] = []
         classes: list[Any] = []
-        recs = []
+        last = len(hier) - 1
         for i, bases in enumerate(hier):
             if any(classes[j] is None for j in bases):
                 classes.append(None)
                 infos.append(None)
-                recs.append({"rt": "dep-failed", "mro": None, "rejected": None})
+                if i == last:
+                    cells["mro:skipped-base-failed-at-runtime"] = cells.get("mro:skipped-base-failed-at-runtime", 0) + 1
                 continue
             try:
-                c = type(f"H{h}_{i}", tuple(classes[j] for j in bases), {})
+                c = type(f"C{i}", tuple(classes[j] for j in bases), {})
                 classes.append(c)
                 rt: Any = [x.__name__ for x in c.__mro__]
             except TypeError as e:
                 classes.append(None)
                 rt = "TypeError: " + str(e)[:80]
-            info = mk(f"H{h}_{i}", [infos[j] for j in bases] or [obj])
+            info = mk(f"C{i}", [infos[j] for j in bases] or [obj])
             try:
                 calculate_mro(info)
-                st, rej = [t.name for t in info.mro], False
+                st, st_rej = [t.name for t in info.mro], False
             except MroError:
-                st, rej = None, True
-            infos.append(info if not rej else None)
-            recs.append({"rt": rt, "mro": st, "rejected": rej})
-        out.append(recs)
-    return {"hiers": out}
+                st, st_rej = None, True
+            infos.append(info if not st_rej else None)
+            rt_rej = isinstance(rt, str)
+            if st_rej != rt_rej or (not rt_rej and st != rt):
+                # a wrong prefix class poisons everything built on it: report it wherever it is seen, once per batch
+                rec = {"hier": hier[: i + 1], "index": i, "rt": rt, "mro": st, "rejected": st_rej}
+                if len(bad) < 50 and rec not in bad:
+                    bad.append(rec)
+                if st_rej and not rt_rej:
+                    infos[-1] = None
+                    classes[-1] = None
+                continue
+            if i != last:
+                continue
+            n += 1
+            nb = len(bases)
+            if rt_rej:
+                rej += 1
+                nontriv += 1
+                k = f"mro:reject:nbases={nb}"
+            else:
+                acc += 1
+                if nb >= 2 or len(rt) >= 4:
+                    nontriv += 1
+                    if sample is None and len(rt) >= 7:
+                        sample = {"bases": hier, "mro": rt}
+                k = f"mro:accept:nbases={nb}"
+            cells[k] = cells.get(k, 0) + 1
+    return {"n": n, "accept": acc, "reject": rej, "nontrivial": nontriv, "bad": bad, "cells": cells, "sample": sample,
+            "hierarchies": len(hiers)}
 
 
 # ------------------------------------------------------------------------------------------------
@@ -563,7 +594,10 @@ def reach_build(conds: list[str], version: list[int], platform: str, native: boo
     flags = ["--python-version", f"{version[0]}.{version[1]}", "--platform", platform]
     if native:
         flags.append("--native-parser")
-    b = _build({"m.py": text}, flags, ["m.py"])
+    def keep_asts(options: Any) -> None:
+        options.preserve_asts = True
+
+    b = _build({"m.py": text}, flags, ["m.py"], mutate_options=keep_asts)
     fail = _failure(b)
     if fail or b["result"] is None:
         return {"fail": fail or {"kind": "compile_error", "msgs": b["msgs"][:5]}}
@@ -591,7 +625,15 @@ _mfold_installed = False
 
 
 def _val(v: Any) -> list[str] | None:
-    return None if v is None else [type(v).__name__, repr(v)]
+    """[type name, printable value]; never raises (huge ints exceed repr's digit limit: hex has none)."""
+    if v is None:
+        return None
+    try:
+        if type(v) is int and v.bit_length() > 4000:
+            return ["int", hex(v)]
+        return [type(v).__name__, repr(v)]
+    except Exception as e:
+        return [type(v).__name__, f"<unprintable {type(e).__name__}>"]
 
 
 def _install_fold_hooks() -> None:
@@ -716,14 +758,25 @@ def fold_batch(exprs: list[str], flags: list[str], mypyc: bool = False, decls: l
     except (SyntaxError, ValueError, OverflowError, MemoryError) as e:
         return {"harness": f"generated module does not compile: {type(e).__name__}: {e}"}
     rt, ns = _runtime_lines(lines, first)
-    _fold_sink = []
-    try:
-        b = _build({"m.py": text}, flags, ["m.py"])
-    finally:
-        sink, _fold_sink = _fold_sink, None
-    fail = _failure(b)
+    crashed: dict[int, dict[str, Any]] = {}
+    cur = list(lines)
+    for _attempt in range(60):
+        _fold_sink = []
+        try:
+            b = _build({"m.py": "\n".join(cur) + "\n"}, flags, ["m.py"])
+        finally:
+            sink, _fold_sink = _fold_sink, None
+        fail = _failure(b)
+        ln = (fail or {}).get("src_line")
+        if fail and fail["kind"] == "internal" and isinstance(ln, int) and first <= ln < first + len(exprs) \
+                and (ln - first) not in crashed:
+            # an internal error hides the rest of the module: attribute it to its line, neutralise the line, re-run
+            crashed[ln - first] = fail
+            cur[ln - 1] = f"X{ln - first}: Final = None"
+            continue
+        break
     if fail or b["result"] is None:
-        return {"fail": fail or {"kind": "compile_error", "msgs": b["msgs"][:5]}, "n": len(exprs)}
+        return {"fail": fail or {"kind": "compile_error", "msgs": b["msgs"][:5]}, "n": len(exprs), "crashed": len(crashed)}
     tree = b["result"].files["m"]
     per_line = _by_line(b["msgs"], "m.py")
     cases: list[dict[str, Any]] = []
@@ -734,28 +787,29 @@ def fold_batch(exprs: list[str], flags: list[str], mypyc: bool = False, decls: l
         fv = _val(getattr(node, "final_value", None)) if node is not None else None
         col = len(f"X{i}: Final = ")
         outer = [r["val"] for r in sink if r["who"] == "mypy" and r["line"] == ln and r["col"] == col]
-        cases.append({"expr": e, "rt": rt.get(ln), "final_value": fv, "folds": outer, "errs": per_line.get(ln, [])})
+        cases.append({"expr": e, "rt": rt.get(ln), "final_value": fv, "folds": outer, "errs": per_line.get(ln, []),
+                      **({"crash": crashed[i]} if i in crashed else {})})
     # sub-expression folds (calls on operands after the whole expression did not fold) are judged against their own span
     subs = []
     for r in sink:
         if r["who"] != "mypy" or r["line"] < first or r["val"] is None:
             continue
         i = r["line"] - first
-        if r["col"] == len(f"X{i}: Final = "):
+        if r["col"] == len(f"X{i}: Final = ") or i in crashed or i >= len(exprs):
             continue
         ev = _eval_span(lines, r, ns)
         if ev != "?span":
             subs.append({"src": ev["src"], "rt": ev["val"], "fold": r["val"], "line_expr": exprs[i]})
     out: dict[str, Any] = {"cases": cases, "subs": subs, "fail": None}
     if mypyc:
-        out["mypyc"] = _mypyc_fold(head, exprs, [i for i, c in enumerate(cases) if not c["errs"]])
+        out["mypyc"] = _mypyc_fold(head, exprs, [i for i, c in enumerate(cases) if not c["errs"] and i not in crashed])
     return out
 
 
 def _mypyc_fold(head: list[str], exprs: list[str], keep: list[int]) -> dict[str, Any]:
     global _fold_sink
     _install_mypyc_fold_hooks()
-    from mypy.errors import Errors
+    from mypyc.errors import Errors
     from mypyc.irbuild.main import build_ir
     from mypyc.irbuild.mapper import Mapper
     from mypyc.options import CompilerOptions
